@@ -32,6 +32,9 @@ checks = {
  "C09": dict(level="fault_enumeration", ref="DESIGN.md 3 C09",
    text="The same enumerated failure matrix with a burst queued around the failing message, plus zombie (failing restart hooks), nested concurrent failures and failures while stopping; 'stuck' is decided, not approximated: at quiescence an accessor lists paused or half-stopped contexts, and numbered probes sent afterwards must be processed by every living actor and dead-lettered for every stopped one.",
    technique="deterministic simulation with enumerated fault injection, quiescence oracle + probe traffic"),
+ "C10": dict(level="exploration", ref="DESIGN.md 3 C10, 2.6",
+   text="Outside goroutines hammer the documented-concurrent API while supervised trees spawn, fail, restart and die; most runs execute in a -race build in which every scheduler hand-off is hidden from ThreadSanitizer (RaceDisable + //go:norace runtime), so two accesses to vivid state that any explored schedule executes without real synchronisation between them are reported deterministically, not by lucky timing; the plain build checks for panics and tree consistency at quiescence through an accessor. A self-test (vcheck SELF / SELFNEG) shows ordered chains are not reported and unordered accesses are.",
+   technique="deterministic simulation + Go race detector with the simulator made invisible (race oracle), tree-consistency oracle at quiescence"),
  "C19": dict(level="exploration", ref="DESIGN.md 3 C19",
    text="Concurrent Subscribe/Unsubscribe/UnsubscribeAll/Publish histories with subscriber kills and restarts, stamped with the simulator's global event sequence number and checked for linearizability against a set model with porcupine; plus duplicate, order, post-termination and stale-table-entry oracles.",
    technique="deterministic simulation: seeded scheduler, recorded history checked with porcupine against a sequential model"),
